@@ -573,6 +573,12 @@ func (ce *callEngine) call(ctx context.Context, params, results []uint64) (_ []u
 			return nil, m.FailIfClosed()
 		default:
 		}
+		// The module may have been closed by another goroutine, or by the watcher of an outer invocation whose
+		// context the host function did not pass on: call entry is the only check point on a cycle that goes
+		// through a host function (guest -> host -> api.Function.Call -> guest).
+		if err := m.FailIfClosed(); err != nil {
+			return nil, err
+		}
 	}
 
 	if ctx.Value(expctxkeys.EnableSnapshotterKey{}) != nil {
